@@ -64,14 +64,59 @@ macro_rules! ops {
     };
 }
 
+/// expression trees: ["add", l, r] | ["neg"|"exp"|"log"|"pow2"|"powp", u] | "x" | "y" | "c"
+enum TV<T> { D(T), F(f64) }
+macro_rules! tree_eval {
+    ($name:ident, $T:ty) => {
+        fn $name(t: &Value, x: &$T, y: &$T, c: f64, p: f64) -> TV<$T> {
+            if let Some(s) = t.as_str() {
+                return match s { "x" => TV::D(x.clone()), "y" => TV::D(y.clone()), _ => TV::F(c) };
+            }
+            let a = t.as_array().unwrap();
+            let op = a[0].as_str().unwrap();
+            if a.len() == 3 {
+                let (l, r) = ($name(&a[1], x, y, c, p), $name(&a[2], x, y, c, p));
+                return match (l, r) {
+                    (TV::F(u), TV::F(v)) => TV::F(match op { "add" => u + v, "sub" => u - v, "mul" => u * v, _ => u / v }),
+                    (TV::D(u), TV::F(v)) => TV::D(match op { "add" => &u + &v, "sub" => &u - &v, "mul" => &u * &v, _ => &u / &v }),
+                    (TV::F(u), TV::D(v)) => TV::D(match op { "add" => &u + &v, "sub" => &u - &v, "mul" => &u * &v, _ => &u / &v }),
+                    (TV::D(u), TV::D(v)) => TV::D(match op { "add" => &u + &v, "sub" => &u - &v, "mul" => &u * &v, _ => &u / &v }),
+                };
+            }
+            match $name(&a[1], x, y, c, p) {
+                TV::F(u) => TV::F(match op { "neg" => -u, "exp" => u.exp(), "log" => u.ln(), "pow2" => u.powf(2.0), _ => u.powf(p) }),
+                TV::D(u) => TV::D(match op { "neg" => -&u, "exp" => u.exp(), "log" => u.log(), "pow2" => (&u).pow(2.0), _ => (&u).pow(p) }),
+            }
+        }
+    };
+}
+tree_eval!(tree1, Dual);
+tree_eval!(tree2, Dual2);
+
 pub fn run(sc: &Value) -> Value {
     let two = sc["ty"].as_str() == Some("Dual2");
+    if sc["kind"].as_str() == Some("dual_tree") {
+        let (xv, yv, c, p) = (sc["x"].as_f64().unwrap(), sc["y"].as_f64().unwrap(), sc["c"].as_f64().unwrap(), sc["p"].as_f64().unwrap());
+        return if !two {
+            match tree1(&sc["tree"], &Dual::new(xv, vec!["v0".to_string()]), &Dual::new(yv, vec!["v1".to_string()]), c, p) {
+                TV::D(d) => out1(&d), TV::F(f) => json!({"real": f, "vars": [], "dual": []}) }
+        } else {
+            match tree2(&sc["tree"], &Dual2::new(xv, vec!["v0".to_string()]), &Dual2::new(yv, vec!["v1".to_string()]), c, p) {
+                TV::D(d) => out2(&d), TV::F(f) => json!({"real": f, "vars": [], "dual": [], "dual2": []}) }
+        };
+    }
     let kind = sc["kind"].as_str().unwrap();
     let op = sc["op"].as_str().unwrap_or("");
     let ra = sc["ref_a"].as_bool().unwrap_or(true);
     let rb = sc["ref_b"].as_bool().unwrap_or(true);
     let share = sc["share"].as_bool().unwrap_or(false);
     match kind {
+        "dual_to_new_vars" => {
+            use rateslib::dual::Vars;
+            let target: indexmap::IndexSet<String> = svec(&sc["target"]).into_iter().collect();
+            let arc = std::sync::Arc::new(target);
+            if !two { out1(&mk1(&sc["a"], None).to_new_vars(&arc, None)) } else { out2(&mk2(&sc["a"], None).to_new_vars(&arc, None)) }
+        }
         "dual_binop" => {
             let af = sc["a"].get("f64").and_then(|x| x.as_f64());
             let bf = sc["b"].get("f64").and_then(|x| x.as_f64());
